@@ -48,15 +48,51 @@ def parseSlots : List String → Option (List Nat)
     | some v, some vs => some (v :: vs)
     | _, _ => none
 
+def maxN : Nat := 8
+
+def parseNSlot (t : String) : Option Nat :=
+  match parseSlot t with
+  | some i => if i < maxN then some i else none
+  | none => none
+
+def parseInts : List String → Option (List Int)
+  | [] => some []
+  | t :: ts => match parseInt t, parseInts ts with
+    | some v, some vs => some (v :: vs)
+    | _, _ => none
+
 def parseVals : List String → Option (List Val)
   | [] => some []
   | t :: ts => match parseVal t, parseVals ts with
     | some v, some vs => some (v :: vs)
     | _, _ => none
 
+def parseStr (t : String) : Option String :=
+  match parseVal t with
+  | some (.str s) => some s
+  | _ => none
+
+def parseEdit (ws : List String) : Option Edit :=
+  match ws with
+  | ["cat", t] => do some (.cat (← parseStr t))
+  | ["app", t] => do some (.app (← parseStr t))
+  | ["res", n] => do some (.res (← parseInt n))
+  | ["asg", v] => do some (.asg (← parseVal v))
+  | ["fmt", p, t] => do some (.fmt (← parseInt p) (← parseStr t))
+  | ["rem", t] => do some (.rem (← parseStr t))
+  | ["look", t] => do some (.look (← parseStr t))
+  | _ => none
+
 def parseOp (ws : List String) : Option Op :=
   match ws with
   | ["nv", d, v] => do some (.nv (← parseSlot d) (← parseVal v))
+  | ["nvr", d, v] => do some (.nvm .raw (← parseSlot d) (← parseVal v))
+  | ["nvo", d, v] => do some (.nvm .root (← parseSlot d) (← parseVal v))
+  | "ed" :: c :: "self" :: e => do some (.ed (← parseSlot c) .self (← parseEdit e))
+  | "ed" :: c :: "at" :: i :: e => do some (.ed (← parseSlot c) (.at (← parseInt i)) (← parseEdit e))
+  | "ed" :: c :: "it" :: i :: e => do some (.ed (← parseSlot c) (.it (← parseInt i)) (← parseEdit e))
+  | "ed" :: c :: "val" :: k :: e => do some (.ed (← parseSlot c) (.val (← parseVal k)) (← parseEdit e))
+  | "ed" :: c :: "key" :: k :: e => do some (.ed (← parseSlot c) (.key (← parseVal k)) (← parseEdit e))
   | "na" :: d :: ty :: vs => do some (.nseq .array (← parseSlot d) (← parseTy ty) (← parseVals vs))
   | "nl" :: d :: ty :: vs => do some (.nseq .list (← parseSlot d) (← parseTy ty) (← parseVals vs))
   | ["nt", d, kt, vt] => do some (.nmap .table (← parseSlot d) (← parseTy kt) (← parseTy vt))
@@ -120,6 +156,14 @@ def parseOp (ws : List String) : Option Op :=
   | ["tpopat", t, i] | ["tget", t, i] | ["tresize", t, i] => do let _ ← parseTSlot t; let _ ← parseInt i; some .harnessOnly
   | ["tpop", t] | ["titems", t] | ["tritems", t] | ["tlen", t] | ["tsort", t] | ["thash", t] | ["tdrop", t] | ["tdel", t] =>
     do let _ ← parseTSlot t; some .harnessOnly
+  -- nested holders (transcript only): syntax check, exactly as harness/h_cfg.c does it
+  | ["xnew", n, o, i] => do let _ ← parseNSlot n; if ["a", "l", "t", "r"].contains o && ["A", "L", "U"].contains i then some .harnessOnly else none
+  | ["xshow", n] | ["xdel", n] | ["xdrop", n] => do let _ ← parseNSlot n; some .harnessOnly
+  | ["xadd", n, k] | ["xpop", n, k] | ["xrem", n, k] => do let _ ← parseNSlot n; let _ ← parseInt k; some .harnessOnly
+  | ["xpush", n, k, v] | ["xpopat", n, k, v] | ["xres", n, k, v] | ["xget", n, k, v] =>
+    do let _ ← parseNSlot n; let _ ← parseInt k; let _ ← parseInt v; some .harnessOnly
+  | ["xset", n, k, j, v] => do let _ ← parseNSlot n; let _ ← parseInt k; let _ ← parseInt j; let _ ← parseInt v; some .harnessOnly
+  | "xcat" :: n :: k :: vs => do let _ ← parseNSlot n; let _ ← parseInt k; let _ ← parseInts vs; some .harnessOnly
   | _ => none
 
 open Cello.Config.Keep in
@@ -186,6 +230,8 @@ def main (args : List String) : IO Unit := do
   let mut nDiverge := 0
   let mut collections := 0
   let mut memoFills := 0
+  let mut nEdits := 0          -- in-place edits executed, and how many of them on elements embedded in containers
+  let mut nElemEdits := 0
   -- the keep programs (containers as the sole path to managed objects): one state per configuration as well
   let mut ksts : List Keep.KSt := cfgs.map (fun _ => Keep.KSt.init)
   let mut nKeep := 0
@@ -231,6 +277,9 @@ def main (args : List String) : IO Unit := do
         -- a forced collection also collects the garbage of the keep programs
         match op with
         | .gc => ksts := (cfgs.zip ksts).map (fun p => (Keep.kstep p.1 .gc p.2).1)
+        | .ed _ sel _ =>
+          nEdits := nEdits + 1
+          if sel != .self then nElemEdits := nElemEdits + 1
         | _ => pure ()
         match showOut out with
         | some t => IO.println s!"O {t}"
@@ -248,4 +297,4 @@ def main (args : List String) : IO Unit := do
         nOoc := nOoc + 1
         IO.println "O out-of-contract"
   IO.println s!"O end live={(sts.head!).live.length} holders={(ksts.head!).slots.length}"
-  IO.println s!"S ops={nOps} out-of-contract={nOoc} bad={nBad} config-divergences={nDiverge} collections={collections} cache-fills={memoFills} heap-default={(sts.head!).heap.length} heap-ngc={((sts.drop 3).head!).heap.length} keep-ops={nKeep} keep-collections={(ksts.head!).collections} keep-high-slot-entries={kHigh} keep-heap-default={(ksts.head!).heap.length} keep-heap-ngc={((ksts.drop 3).head!).heap.length}"
+  IO.println s!"S ops={nOps} out-of-contract={nOoc} bad={nBad} config-divergences={nDiverge} collections={collections} cache-fills={memoFills} heap-default={(sts.head!).heap.length} heap-ngc={((sts.drop 3).head!).heap.length} keep-ops={nKeep} keep-collections={(ksts.head!).collections} keep-high-slot-entries={kHigh} keep-heap-default={(ksts.head!).heap.length} keep-heap-ngc={((ksts.drop 3).head!).heap.length} edits={nEdits} elem-edits={nElemEdits}"
